@@ -3,6 +3,7 @@ package mon
 import (
 	"context"
 	"fmt"
+	"math"
 	"sort"
 	"strconv"
 	"strings"
@@ -198,6 +199,11 @@ func c24genVal(r *core.R, kind byte) c24val {
 			return c24int(-r.Range(1, 5))
 		case 2:
 			return c24int(r.Range(-1<<40, 1<<40))
+		case 3:
+			// neighbours beyond 2^53, where distinct ints share one float64
+			if r.Chance(0.35) {
+				return c24int(core.Pick(r, []int{math.MaxInt64, math.MaxInt64 - 1, math.MaxInt64 - 2, 1<<53 + 1, 1<<53 + 2, 1 << 53, math.MinInt64 + 1, math.MinInt64 + 2}))
+			}
 		}
 		return c24int(r.Range(-2, 6)) // small range: duplicates and ties
 	case 'f':
@@ -247,6 +253,19 @@ func c24genList(r *core.R, kk, vk byte, n int) []c24item {
 	l := make([]c24item, n)
 	for i := range l {
 		l[i] = c24item{c24genVal(r, kk), c24genVal(r, vk)}
+	}
+	if n >= 2 && r.Chance(0.1) {
+		// a cluster of neighbouring ints beyond 2^53 (keys, values or both): distinct as
+		// ints, equal once converted to float64
+		base := core.Pick(r, []int{math.MaxInt64 - n, 1 << 53, 1<<60 + 1, math.MinInt64 + 1})
+		perm := r.Perm(n)
+		for i := range l {
+			if vk == 'i' {
+				l[i].v = c24int(base + perm[i])
+			} else if kk == 'i' {
+				l[i].k = c24int(base + perm[i])
+			}
+		}
 	}
 	if r.Chance(0.3) {
 		// implicit keys 0..n-1, as the {a, b, c} literal produces
